@@ -16,6 +16,10 @@ def main():
     name = base if base.startswith(prop) else '%s_%s' % (prop, base)
     if not checks: checks = [prop]
     wt = '/tmp/seedwt_%s' % name
+    if os.environ.get('DETECT_ONLY') and (meta.get('verification') or {}).get('confirmed'):
+        # the change was confirmed before (tests pass, demonstration fails with it): only re-run the checks against it
+        res = {k: v for k, v in meta['verification'].items() if k != 'checks'}
+        return detect(res, d, name, checks)
     sh('git -C /repo worktree remove --force %s' % wt); shutil.rmtree(wt, ignore_errors=True)
     rc, out = sh('git -C /repo worktree add --detach %s HEAD' % wt)
     res = {'property': prop, 'name': name, 'confirmed': False}
@@ -37,7 +41,9 @@ def main():
         res['confirmed'] = passed == 158 and failed == 0 and rc1 != 0 and rc0 == 0
     finally:
         sh('git -C /repo worktree remove --force %s' % wt); shutil.rmtree(wt, ignore_errors=True)
-    # detection
+    return detect(res, d, name, checks)
+
+def detect(res, d, name, checks):
     res['checks'] = {}
     if res['confirmed']:
         st = sh('git -C /repo status --porcelain')[1].strip()
